@@ -248,6 +248,48 @@ fn c17_from_iter_underestimate() {
     drop(v);
 }
 
+/// Element type that OWNS memory (Box<u32>): every element must be freed exactly once whichever way it
+/// leaves the vector - moved out by a partially consumed iterator, moved by detach() when a push has to
+/// grow, or dropped with the vector.  CBMC's double-free / dead-object checks are the oracle.
+#[kani::proof]
+#[kani::unwind(10)]
+fn c17_owning_into_iter_partial() {
+    let mut a: Vector<Box<u32>> = Vector::with_capacity(4);
+    let e: [u32; 3] = kani::any();
+    a.push(Box::new(e[0]));
+    a.push(Box::new(e[1]));
+    a.push(Box::new(e[2]));
+    let take: usize = kani::any();
+    kani::assume(take <= 3);
+    let mut it = a.into_iter();
+    let mut i = 0;
+    while i < 3 {
+        if i < take {
+            let x = it.next().unwrap();
+            assert!(*x == e[i], "elements come out in order");
+            drop(x);
+        }
+        i += 1;
+    }
+    kani::cover!(take == 1, "one element moved out, two left in the iterator");
+    kani::cover!(take == 3, "everything moved out");
+    drop(it);
+}
+
+#[kani::proof]
+#[kani::unwind(10)]
+fn c17_owning_push_grow() {
+    let mut a: Vector<Box<u32>> = Vector::with_capacity(2);
+    let e: [u32; 3] = kani::any();
+    a.push(Box::new(e[0]));
+    a.push(Box::new(e[1]));
+    a.push(Box::new(e[2])); // grows 2 -> 4: detach() moves the boxes through an unshared iterator
+    assert!(a.len() == 3);
+    assert!(*a[0] == e[0] && *a[1] == e[1] && *a[2] == e[2]);
+    kani::cover!(true, "reached");
+    drop(a);
+}
+
 /// The shared static empty vector (Vector::default()): len/slice/clone/drop never touch or free it.
 #[kani::proof]
 #[kani::unwind(10)]
